@@ -7,7 +7,7 @@ pass-through stages (union / tee / identity / map id / inspect / chain — what 
 tees are in the partitioned graph) and returns the frontier of producer outputs.
 The theorems hold for every well-formed program, every depth, every state and input.
 -/
-import HvDfir.Lemmas.Prog
+import HvDfir.Props.C22
 namespace HvDfir
 
 /-- a stage that forwards everything it receives (in input-port order) to output `port` -/
@@ -147,6 +147,22 @@ theorem blocking_input_complete (t : Nat) (ext : List Stream) (ns : List Node) (
   intro r _
   exact aux_lookup_producers t ext ns σ hwf d r
 
+/-- **blocking_input_complete, partitioned form.** However the program's nodes are split into
+    subgraphs that run one after the other with handoff buffers in between (`runSchedule`, the
+    function the driver runs on the partition the real compiler chose), as long as the flattened
+    order is well formed: every node computes its operator semantics on everything its
+    (transitive, pass-through-expanded) producers emitted in the tick. -/
+theorem blocking_input_complete_any_partition (t : Nat) (ext : List Stream) (sch : Schedule) (σ : States)
+    (hwf : WF sch.flatten) (b : Node) (hb : b ∈ sch.flatten) (d : Nat) :
+    (runSchedule t ext sch σ).2 b.id =
+      (opSem b.op t ext (σ b.id)
+        (b.ins.map fun r => ((producers sch.flatten d r).map (lookup (runSchedule t ext sch σ).2)).flatten)).2 := by
+  have e : runSchedule t ext sch σ = evalTick t ext sch.flatten σ := by
+    unfold runSchedule
+    rw [aux_runSchedule_flatten, evalTick_eq_runNodes]
+  rw [e]
+  exact blocking_input_complete t ext sch.flatten σ hwf b hb d
+
 /-- instance: a `fold` emits the accumulation over all items of all its (transitive) producers -/
 theorem fold_sees_all_producers (t : Nat) (ext : List Stream) (ns : List Node) (σ : States) (hwf : WF ns)
     (b : Node) (hb : b ∈ ns) (p : Pers) (f : AccFn) (r : Ref) (hop : b.op = .fold p f) (hins : b.ins = [r]) (d : Nat) :
@@ -216,6 +232,14 @@ example :
       ⟨3, .tee 2, [⟨2, 0⟩]⟩, ⟨4, .fold .tick .sum, [⟨3, 0⟩]⟩]
     producers ns 5 ⟨3, 0⟩ = [⟨0, 0⟩, ⟨1, 0⟩] ∧
     lookup (evalTick 0 [[.num 1, .num 2], [.num 4]] ns States.init).2 ⟨4, 0⟩ = [.num 7] := by
+  decide
+
+/-! non-vacuity of the partitioned form: the same program split into three subgraphs -/
+example :
+    let sch : Schedule := [[⟨0, .source 0, []⟩, ⟨1, .source 1, []⟩], [⟨2, .union 2, [⟨0, 0⟩, ⟨1, 0⟩]⟩, ⟨3, .tee 2, [⟨2, 0⟩]⟩],
+      [⟨4, .fold .tick .sum, [⟨3, 0⟩]⟩]]
+    wfFromB [] sch.flatten = true ∧
+    lookup (runSchedule 0 [[.num 1, .num 2], [.num 4]] sch States.init).2 ⟨4, 0⟩ = [.num 7] := by
   decide
 
 end HvDfir
